@@ -19,7 +19,7 @@ TABLE_CONSTRUCTS = ["br_loop_cond_code", "br_report_steps_code", "br_model_data_
                     "br_runs_list_code", "br_results_code", "br_skeleton"]
 SHRINK = True
 RULE = ("histories = 1-2 batch_run calls (sometimes the very same call twice) on the scripted model class BM: parameter dictionaries "
-        "over n, stop, ic, sc, ar, churn, k, mc (ints, None) and two pass-through parameters (strings, dicts, lists, bool, floats incl. "
+        "over n, stop, ic, sc, ar, churn, k, mc, pat, mr (ints, None; pat = an explicit collection pattern, gaps and duplicates; mr = model reporters on/off) and two pass-through parameters (strings, dicts, lists, bool, floats incl. "
         "0.1, an int beyond 2^53 as values) given as scalars, strings, lists, tuples, ranges (incl. empty range -> no runs, empty list -> "
         "ValueError), numpy 0-d arrays (one value) and 1-d int arrays (their elements, empty -> no runs); iterations 1-3, max_steps "
         "-1..6, data_collection_period -1/1/2/3/7, display_progress on in 15%; models that stop early, collect 0-3 times at construction "
@@ -52,7 +52,7 @@ ASSUMPTIONS = [
     "parameter values are ints/None (also as numpy scalars) for the parameters BM interprets; everything else is passed through and "
     "must be echoed in the rows as the same value and type; iterations >= 1 and period in {-1} u {k >= 1} as in the quantifier",
 ]
-NAMES = ["n", "stop", "ic", "sc", "ar", "churn", "k", "tag", "obj", "mc"]
+NAMES = ["n", "stop", "ic", "sc", "ar", "churn", "k", "tag", "obj", "mc", "pat", "mr"]
 MKEYS = ["Steps", "Sum", "K", "T"]
 AKEYS = ["sv", "val"]
 E_VALUE = 2
@@ -97,7 +97,7 @@ def _gen_param(rng, name, objects):
 
 
 def _gen_op(rng, objects, nproc=1):
-    names = [n for n in NAMES if rng.random() < 0.45]
+    names = [n for n in NAMES[:10] if rng.random() < 0.45]     # (the collection pattern `pat` has streams of its own)
     rng.shuffle(names)
     params = []
     size = 1
@@ -132,6 +132,22 @@ def gen_cases(rng, tier):
     cases += sweep[:120 if tier == "quick" else 0]
     # agent churn BETWEEN two collects of the same step (all agents removed / created / first removed / all removed at
     # the final step before the model stops), with agent reporters on
+    # arbitrary collection histories: gaps (steps without a collect) and duplicates (2-3 collects in one step, also at
+    # construction and at the last step) mixed, so that length / first / last of the history coincide in every way
+    for j in range(40 if tier == "quick" else 400):
+        L = rng.randint(3, 6)
+        params = [["pat", "list", [_gen_pattern(rng, L) for _ in range(rng.randint(3, 6))]], ["ar", "scalar", rng.choice([1, 1, 0])],
+                  ["n", "scalar", rng.choice([1, 2])]]
+        if rng.random() < 0.3:
+            params.append(["mc", "scalar", rng.choice([1, 2, 3])])
+        if rng.random() < 0.3:
+            params.append(["stop", "scalar", rng.randint(2, L)])
+        if rng.random() < 0.3:
+            params.append(["mr", rng.choice(["scalar", "list"]), None])     # collectors without model reporters
+            params[-1][2] = 0 if params[-1][1] == "scalar" else [0, 1]
+        rng.shuffle(params)
+        cases.append({"objects": [], "ops": [["batch", params, 1, rng.choice([L, L, L + 1, L - 1]), rng.choice([1, 1, 2, 3, -1]),
+                                              2 if j == 0 else 1, False]]})
     for _ in range(40 if tier == "quick" else 400):
         params = [["ar", "scalar", 1], ["mc", rng.choice(["scalar", "list"]), None], ["n", "scalar", rng.choice([1, 2, 3])],
                   ["sc", "scalar", rng.choice([2, 2, 3])], ["ic", "scalar", rng.choice([0, 1, 2])],
@@ -140,6 +156,14 @@ def gen_cases(rng, tier):
         rng.shuffle(params)
         cases.append({"objects": [], "ops": [["batch", params, 1, rng.choice([1, 2, 3, 4]), rng.choice([-1, 1, 1, 2]), 1, False]]})
     return cases
+
+
+def _gen_pattern(rng, L, most=8):
+    """a collection pattern over steps 0..L as a base-4 number: digit s = number of collects at step s (0 = a gap)"""
+    while True:
+        counts = [rng.choice([0, 0, 0, 1, 1, 1, 1, 2, 2, 3]) for _ in range(L + 1)]
+        if 0 < sum(counts) <= most:
+            return -(1000 + sum(c * 4 ** s for s, c in enumerate(counts)))
 
 
 def enumerate_cases(tier, broken=False):
@@ -157,6 +181,23 @@ def enumerate_cases(tier, broken=False):
                               ["n", "list", [1, 2]], ["ar", "list", [1, 0]]], 1, max_steps, period, 1]
                    for max_steps in (1, 2, 3) for period in (-1, 1)]
             yield {"objects": [], "ops": ops}
+    # collection histories: ALL patterns over steps 0..4 (0-3 collects per step) and a dense sample over steps 0..6 with at
+    # most 8 collections, 16 models per call, periods 1 / 2 / -1 (the full set only when something broke or in thorough)
+    import random
+
+    prng = random.Random(4711)
+    small = [-(1000 + q) for q in range(1, 4 ** 5)]
+    big = [_gen_pattern(prng, 6) for _ in range(640)]
+    if not (broken or tier == "thorough"):
+        small, big = prng.sample(small, 64), big[:64]
+    for pats, max_steps in ((small, 4), (big, 6)):
+        for i in range(0, len(pats), 16):
+            yield {"objects": [], "ops": [["batch", [["pat", "list", pats[i:i + 16]], ["ar", "scalar", ar], ["n", "scalar", 1], ["mr", "scalar", mr]],
+                                           1, max_steps, period, 1] for period, ar, mr in ((1, 1, 1), (2, 1, 0), (-1, 0, 1))]}
+    # collectors without model reporters (agent reporters only / no reporters at all) x collect patterns
+    for ic, sc, ar in itertools.product([0, 1, 2], [0, 1, 2], [0, 1]):
+        yield {"objects": [], "ops": [["batch", [["mr", "scalar", 0], ["ic", "scalar", ic], ["sc", "scalar", sc], ["ar", "scalar", ar], ["n", "list", [0, 2]]],
+                                       2, max_steps, period, 1] for max_steps, period in ((0, -1), (3, 1), (3, -1), (4, 2))]}
     # designs: all shapes of two parameters
     shapes = [["scalar", 1], ["list", [0, 1]], ["tuple", [2]], ["range", [0, 3, 1]], ["range", [1, 1, 1]], ["list", []], ["list", [1, 1]],
               ["np0", 2], ["np1", [0, 1]], ["np1", []]]
